@@ -20,6 +20,9 @@ SETUP = [
     "create schema s2",
     "create table s2.t3 (k int)",
     "set myvar = 2",
+    'create database "MixDb"',
+    'create schema "MixDb"."Sc"',
+    'create schema "lowSch"',
 ]
 
 # (label, sql, expected description names or None)
@@ -86,10 +89,29 @@ POOL: list[tuple[str, str, list[str] | None]] = [
     ("missing-table", "select * from no_such_table", None),
     ("missing-column", "select no_such_col from t1", None),
     ("semi-structured", "select parse_json('{\"Key\": \"Val\"}') as j, object_construct('K', 1) as o, array_size(parse_json('[1,2]')) as n", ["J", "O", "N"]),
+    ("create-quoted-database", 'create database "OtherDb"', ["status"]),
+    ("create-quoted-schema-qualified", 'create schema "MixDb"."Sc2"', ["status"]),
+    ("use-quoted-schema-qualified", 'use schema "MixDb"."Sc"', None),
+    ("use-quoted-database", 'use database "MixDb"', None),
+    ("use-quoted-schema", 'use schema "Sc"', None),
+    ("create-quoted-schema", 'create schema "lowSch2"', ["status"]),
+    ("use-quoted-schema-current-db", 'use schema "lowSch"', None),
+    ("show-tables-current-database", "show terse tables in database", None),
+    ("create-table-unqualified", "create table made_here (i int)", ["status"]),
     ("regexp", "select regexp_replace(name, 'A', 'z') as r, regexp_substr(name, '[a-z]+') as s from t1 order by id", ["R", "S"]),
     ("sample-seeded", "select id from t1 sample (100) seed (3) order by id", ["ID"]),
 ]
 LABELS = [p[0] for p in POOL]
+# label -> (database, schema) the session must report after the statement succeeded; None = keep that part
+EXPECT_CTX = {
+    "use-quoted-schema-qualified": ("MixDb", "Sc"),
+    "use-quoted-database": ("MixDb", None),
+    "use-quoted-schema": (None, "Sc"),
+    "use-quoted-schema-current-db": (None, "lowSch"),
+    "use-schema": (None, "S2"),
+    "use-schema-qualified": ("DB1", "S2"),
+    "use-database": ("DB1", None),
+}
 
 _TOKEN = re.compile(r"""('(?:[^']|'')*')|("(?:[^"]|"")*")|(\$?[A-Za-z_][A-Za-z0-9_$]*)|([0-9][0-9A-Za-z.]*)|(\s+)|(.)""", re.S)
 
@@ -153,6 +175,7 @@ def _outcome(cur, conn, sql):
 
 def run_script(case, ctx: Ctx) -> None:
     stmts, masks = case["stmts"], case["masks"]
+    stmts = [LABELS.index(i) if isinstance(i, str) and i in LABELS else i for i in stmts]  # hand-written cases name statements
     if not masks or any(not isinstance(i, int) or not 0 <= i < len(POOL) for i in stmts) or any(not isinstance(m, int) or m < 0 for m in masks):
         raise InvalidCase()
     a, b = new_instance(), new_instance()
@@ -187,6 +210,11 @@ def run_script(case, ctx: Ctx) -> None:
                         f"`{sql}` -> {oa[what]!r} {oa['msg'] or ''} ;; `{sql_b}` -> {ob[what]!r} {ob['msg'] or ''}",
                     )
                     return  # the two instances have diverged
+            if label in EXPECT_CTX and ob["ok"]:
+                wd, ws = EXPECT_CTX[label]
+                gd, gs = ob["ctx"]
+                if (wd is not None and gd != wd) or (ws is not None and gs != ws):
+                    ctx.fail(f"C02|reported-context|{label}", f"after `{sql_b}` conn.database/schema = {ob['ctx']}, want {(wd, ws)} (quoted names verbatim, unquoted upper-cased)")
             # direct: unquoted names are reported upper-cased, quoted ones verbatim
             if names is not None and ob["ok"] and isinstance(ob["desc"], list):
                 got = [n for n, _ in ob["desc"]]
